@@ -122,6 +122,7 @@ static Case gen_c06() { return gen_approx(true); }
 static std::string kclass(long k) { return k == 0 ? "k0" : k == 1 ? "k1" : k == 2 ? "k2" : k == 3 ? "k3" : k <= 8 ? "k4-8" : "k-huge"; }
 
 static Verdict check_c05(const Case &c) {
+    if (!in_exact_domain(c.g)) { stats().note_case(c, false); stats().cls("skipped-outside-exact-domain"); return Verdict::pass(); }
     Stats &S = stats();
     std::string base = "C05/" + c.entry + "/exact-" + c.wtype + "/";
     ARun r = run_approx(c);
@@ -146,6 +147,7 @@ static Verdict check_c05(const Case &c) {
 }
 
 static Verdict check_c06(const Case &c) {
+    if (!in_exact_domain(c.g)) { stats().note_case(c, false); stats().cls("skipped-outside-exact-domain"); return Verdict::pass(); }
     Stats &S = stats();
     std::string base = "C06/" + c.entry + "/exact-" + c.wtype + "/";
     ARun r = run_approx(c);
@@ -197,6 +199,7 @@ static Case gen_c15() {
 
 template <class W>
 static Verdict check_c15_t(const Case &c) {
+    if (!in_exact_domain(c.g)) { stats().note_case(c, false); stats().cls("skipped-outside-exact-domain"); return Verdict::pass(); }
     typedef typename BG<W>::graph_t G;
     typedef typename BG<W>::WeightMap WM;
     typedef typename BG<W>::Edge Edge;
